@@ -204,6 +204,19 @@ theorem c03_gov_setPower_effect_quiet_block (s : App) (c : CSet) (b : Block) (g 
         ∃ v, s'.getVal op = some v ∧ v.tokens = p ∧ alookup v.key c' = some ((p / PR : Nat) : Int)) :=
   quiet3_block_gov_setPower_effect s c b g q hadm gpre gpost mpre mpost op p u hb
 
+/-- **C03, requested effect of a RemoveValidator that arrives through governance**: under the same hypotheses, if the
+    proposal that goes through carries `RemoveValidator(op)` at any position of its message list, then after the block
+    CometBFT's set holds no entry under the key `op`'s record had before the block, and `op` has no record any more or an
+    unbonding one for which the power query answers 0 -/
+theorem c03_gov_remove_effect_quiet_block (s : App) (c : CSet) (b : Block) (g : G2 s c) (q : QuietBlock3 s c b)
+    (gpre gpost : List (List Msg)) (mpre mpost : List Msg) (op : Nat) (v : Val)
+    (hb : b.gov = gpre ++ (mpre ++ .remove (some op) :: mpost) :: gpost) (hv : s.getVal op = some v) :
+    ∃ o s' c', App.block genEnv s b = .ok (o, s') ∧ Comet.applyChangeSet c o.updates = .ok c' ∧ G2 s' c' ∧
+      (o.txrs[b.txs.length + gpre.length]? = some .ok →
+        alookup v.key c' = none ∧
+        (s'.getVal op = none ∨ ∃ w, s'.getVal op = some w ∧ Unb w ∧ w.key = v.key ∧ s'.queryPower (some op) = some 0)) :=
+  quiet3_block_gov_remove_effect s c b g q gpre gpost mpre mpost op v hb hv
+
 /-- … and block by block (`EffectAll3`) along every quiet history, governance included, from every well-formed genesis -/
 theorem c03_gov_effect_history_partial (g : Genesis) (hw : g.wf = true) (bs : List Block) (hq : QuietHistory3 g bs) :
     ∃ first steps, run genEnv g bs = some (first, steps, RunEnd.done) ∧ steps.length = bs.length ∧ EffectAll3 bs steps :=
@@ -216,7 +229,8 @@ set_option maxHeartbeats 4000000 in
 example : quietBlock3B Witness.Q4.s3 Witness.Q4.c3 Witness.Q4.b4 = true ∧ Witness.Q4.b4.govIsAdmin = true ∧
     Witness.Q4.b4.gov = [] ++ ([Msg.remove (some 2)] ++ Msg.setPower (some 3) 12000000 true :: []) :: [] ∧
     Witness.Q4.o4.txrs[Witness.Q4.b4.txs.length + 0]? = some .ok ∧
-    alookup 3 Witness.Q4.c4 = some 12 ∧ alookup 2 Witness.Q4.c4 = none :=
-  ⟨by decide, rfl, rfl, by decide, by decide, by decide⟩
+    alookup 3 Witness.Q4.c4 = some 12 ∧ alookup 2 Witness.Q4.c4 = none ∧
+    (Witness.Q4.s4.getVal 2).map (·.status) = some Status.unbonding ∧ Witness.Q4.s4.queryPower (some 2) = some 0 :=
+  ⟨by decide, rfl, rfl, by decide, by decide, by decide, by decide, by decide⟩
 
 end PoaVerif.Props.C03
